@@ -5,6 +5,7 @@ import Ovldverif.Model.JsonE
 import Ovldverif.Model.JsonG
 import Ovldverif.Model.JsonH
 import Ovldverif.Model.Build
+import Ovldverif.Model.ClassBody
 import Ovldverif.Spec.Types
 import Ovldverif.Spec.Resolve
 /-! Line-protocol driver: one JSON scenario per input line, one JSON result per output line. -/
@@ -254,6 +255,39 @@ def runI (j : Json) : Except String Json := do
           ("fault", match fault with | none => Json.null | some n => toJson n)])
   return Json.mkObj [("ops", Json.arr out)]
 
+/-- layer J: class bodies under the overloading metaclass (`Model/ClassBody.lean`) -/
+def runJ (j : Json) : Except String Json := do
+  let cfg ← cfgOfJson j
+  let pool ← (← jArr (← jField j "args")).mapM argOfJson
+  let defs ← (← jArr (← jField j "defs")).mapM (defOfJson pool)
+  let ks ← (← jArr (← jField j "classes")).toList.mapM (fun c => do
+    let ds ← (← natList (← jField c "defs")).mapM (fun i => match defs[i]? with
+      | some d => pure d
+      | none => throw "bad def index")
+    pure ({ bases := ← natList (← jField c "bases"), mixin := ← jBool (← jField c "mixin"), defs := ds,
+            extend := ← jBool (← jField c "extend"), mro := ← natList (← jField c "mro") } : ClassBody.ClassDecl))
+  let st := ClassBody.translate ks
+  let mut g : Graph := Graph.runOps cfg {} st.ops
+  let attrJ : ClassBody.Attr → Json
+    | .none => Json.arr #[Json.str "none"]
+    | .plain d => Json.arr #[Json.str "plain", toJson d.d.id]
+    | .node n f => Json.arr #[Json.str "node", toJson n, toJson f]
+  let mut out : Array Json := #[]
+  for c in (← jArr (← jField j "calls")) do
+    let a ← jArr c
+    let ci ← jNat a[0]!
+    match st.attr[ci]? with
+    | some (.node n _) =>
+      let call ← callOfJson pool #[Json.null, Json.arr #[a[1]!], Json.arr #[]]
+      let exp := g.expected cfg n call
+      let (g', o, t, _) := g.call cfg n call
+      g := g'
+      out := out.push (Json.mkObj [("o", outcomeToJson o), ("t", traceToJson t),
+        ("exp", Json.mkObj [("o", outcomeToJson exp.1), ("t", traceToJson exp.2)])])
+    | _ => out := out.push Json.null
+  return Json.mkObj [("attr", Json.arr (st.attr.map attrJ).toArray), ("nn", toJson st.nn), ("nops", toJson st.ops.length),
+    ("calls", Json.arr out)]
+
 /-- layer H: the model of `NameConverter` applied to an expression of the modelled subset -/
 def runH (j : Json) : Except String Json := do
   let es ← (← jArr (← jField j "exprs")).toList.mapM Ovld.Rw.exprOfJson
@@ -275,6 +309,7 @@ def runLine (line : String) : String :=
       | "G" => runG j
       | "H" => runH j
       | "I" => runI j
+      | "J" => runJ j
       | _ => throw s!"unknown layer {layer}"
     match r with
     | .ok v => v.compress
